@@ -8,7 +8,7 @@ sc = pl["scenario"] if isinstance(pl["scenario"], dict) else pl["scenario"][0]
 d = vlib.workdir("dbg")
 path = os.path.join(d, "sc.ndjson")
 open(path, "w").write(json.dumps({"hdr": True, "meaning": pl.get("meaning", {})}) + "\n" + json.dumps(sc) + "\n")
-vlib.run_harness(["sock-run", path, os.path.join(d, "raw.ndjson"), os.path.join(d, "sock")])
+vlib.run_harness(["client-run" if "tasks" in sc else "sock-run", path, os.path.join(d, "raw.ndjson"), os.path.join(d, "sock")])
 n = sess.postprocess(os.path.join(d, "raw.ndjson"), os.path.join(d, "tr.ndjson"))
 o = json.loads(open(os.path.join(d, "tr.ndjson")).read().splitlines()[1])
 for name, v in o["sessions"].items():
